@@ -85,6 +85,19 @@ CLAIMS.update({
         note="order inside HashMap, ctxt, dedup and macro collections unspecified (any permutation accepted); std map lookup trusted; Span and Metric event property views not modelled; ThreadLocalCtxt covered for a single pushed frame (stacking belongs to C03); thorough tier uses TLC simulation for deep trees"),
 })
 
+_SPAN_TECH = "explicit TLA+ spec model-checked by TLC; every transition of the state graph is a program with the level-A prediction after each step, interpreted on the real crates (one OS thread per model thread, hand-polled frame-wrapped futures, real macro expansions, real panics); thorough tiers add TLC simulation"
+CLAIMS.update({
+    "C03": dict(cat="model_checking", ref="6/C03", technique=_SPAN_TECH + " (Ctxt.tla)",
+        text="Within bounds (up to 3 threads, 3 frames, 2 tasks, nesting 3, two new() and two shared() context instances, push/root/disabled/current frames, guard/call/in_fn/with/in_future/raw enter-exit, panics) TLC shows that the swap design of ThreadLocalCtxt gives exactly 'the innermost active frame wins' (InnermostWins, NoTrace, StackOK, ExitRestores, Isolation); every transition is replayed on the real crate and after every step every thread's with_current (enumeration, get/pull, properties attached to an emitted event) must equal the prediction for every context instance.",
+        note="guards: well-nested programs, distinct keys within a frame; disabled and current frames use snapshot semantics; shared() instances alias one storage by design; one catch level per thread; Frame cloning and a separate TaskIsolation property not covered; trusts TLC and the harness interpreter"),
+    "C04": dict(cat="model_checking", ref="6/C04", technique=_SPAN_TECH + " (Span.tla, extends Ctxt)",
+        text="TLC shows the id derivation (current -> new_child -> pushed or disabled frame -> completion re-reading the ambient ids) yields one trace tree (FrameIds, AmbientIds, OneTrace, ParentIsEnclosing = nearest enabled ancestor, EventCarriesInnermost, IdsDistinct, Revert); every span node is replayed through a real macro expansion (#[emit::span] on sync/async fns, guard:, ok_lvl:, new_span!, SpanGuard::new) with filter verdicts free at every node, thread hand-offs via carried frames and interleaved polls of sibling async spans; emitted records and SpanCtxt::current on every thread are compared after every step with ids matched up to a bijection.",
+        note="rng assumed free of zeros and repeats (a guard); no panics and no root frames between spans; incoming ids pushed at the edge in typed/hex/integer/SpanCtxt forms; block-form macros not covered; on event records only trace id and span id compared"),
+    "C18": dict(cat="model_checking", ref="6/C18", technique=_SPAN_TECH + " (Traceparent.tla, extends Span)",
+        text="TLC shows the transcribed incoming_traceparent, filters and thread-local slot swap satisfy SamplerOncePerTrace, DecisionGoverns, UnsampledSilent, SampledConsistent, NoTraceNoParent, FrameCarries and Restored; programs are replayed on the real TraceparentFilter-with-sampler runtime (with and without in_sampled_trace_filter) over TraceparentCtxt<ThreadLocalCtxt>; the sampler log, emitted records and Traceparent::current() with its format/parse round trip on every thread are compared after every step; the model of the code as found (no snapshot on push) must still fail in the thorough tier.",
+        note="nothing is compared where the statement is silent (Traceparent::current() outside a trace, ids inside unsampled traces, events outside traces); headers with a trace id but no span id not generated; no call-site when, no panics; Frame::root under TraceparentCtxt and tracestate contents not modelled"),
+})
+
 NOT_YET = {}
 
 
